@@ -20,11 +20,27 @@ def scenario(exe, root, seed, stats):
         stats['not_clean'] += 1
         shutil.rmtree(root, ignore_errors=True)
         return None
+    # hash migration in progress (sometimes): rehash, then only part of the array is converted to the new hash
+    # (a partial scrub, and/or files synced after the rehash), so stripes of both kinds exist when the damage comes
+    migrating = False
+    if rng.chance(1, 3):
+        r = a.cmd('rehash')
+        if r.rc == 0:
+            how = rng.below(3)
+            if how in (0, 2): a.cmd('scrub', '-p', '40', '-o', '0')
+            if how in (1, 2):
+                for _ in range(1 + rng.below(4)): s.fs_create()
+                s.sync()
+            d = s.run('diff')
+            if d.rc != 0:
+                stats['not_clean'] += 1; a.destroy(); return None
+            migrating = True
+            stats['migrating'] = stats.get('migrating', 0) + 1
     snap = fx.snapshot(a)
     dec = fx.decode(a)
     lay = fx.Layout(a, dec)
     N = a.nparity
-    cfg = 'ndisks=%d nparity=%d zmode=%s hashsize=%d splits=%d ncontent=%d seed=%d' % (a.ndisks, N, a.zmode, a.hashsize, a.splits, a.ncontent, seed)
+    cfg = 'ndisks=%d nparity=%d zmode=%s hashsize=%d splits=%d ncontent=%d migrating=%s seed=%d' % (a.ndisks, N, a.zmode, a.hashsize, a.splits, a.ncontent, migrating, seed)
     backup = root + '.bak'
     shutil.copytree(a.root, backup, symlinks=True)
     results = []
